@@ -284,11 +284,10 @@ impl Server {
     }
 
     fn did_rename_files(&mut self, new_path: Url) {
-        // Do not dispatch if there's already a pending analysis
-        if !self.background_done {
-            return;
-        }
-
+        // A scan that is still pending collected its paths before the rename:
+        // it reads the old name (which no longer exists) and never the new
+        // one, so the renamed file's declarations would stay unknown. Always
+        // queue a fresh scan; the queue runs one task after the other.
         self.background_done = false;
         if let Some(mut metadata) = self.get_metadata(&new_path) {
             if let Ok(paths) = metadata.paths::<&str>(&[], true, true) {
